@@ -15,6 +15,7 @@ type vEvent struct {
 }
 
 func vConn() *nats.Conn                                                            { return nil }
+func vConnNoEcho() *nats.Conn                                                      { return nil }
 func vOnRequest(nc *nats.Conn, f func(subject string, data []byte) ([]byte, bool)) {}
 func vEvents(nc *nats.Conn) []vEvent                                               { return nil }
 func vServe(nc *nats.Conn, subject string, handler func(*nats.Msg))                {}
